@@ -354,6 +354,12 @@ func ReadFile(name string) ([]byte, error) {
 	return b, err
 }
 
+// MkdirAll: the locker recreates the lock directory when it was removed while it waited.
+func MkdirAll(path string, perm FileMode) error {
+	step("mkdirall")
+	return os.MkdirAll(path, perm)
+}
+
 func Remove(name string) error {
 	step("remove")
 	w := W
